@@ -238,7 +238,9 @@ def vc (ws : List String) : String :=
       inputs := ← listOf (← kv1 ws "in") "," vcInput, outputs := ← listOf (← kv1 ws "out") "," vcOutput,
       contractInputs := ← listOf (← kv1 ws "cin") "," vcInput, contractOutputs := ← listOf (← kv1 ws "cout") "," vcOutput }
     let code : List SigLogic.Transfer := amts.map fun a => ⟨payer, .ak ini, a⟩
-    pure (if SigLogic.verifyTxC (fun t => SigLogic.byContract t.contractInputs) env code t then "accept" else "reject")
+    let ok := if kv1 ws "req" == some "0" then SigLogic.verifyTxNoCode (fun t => SigLogic.byContract t.contractInputs) env t
+      else SigLogic.verifyTxC (fun t => SigLogic.byContract t.contractInputs) env code t
+    pure (if ok then "accept" else "reject")
   r.getD "bad-op"
 
 def stepC07 (line : String) : Option String :=
